@@ -6,7 +6,7 @@
 (* collected (and printed) instead of stopping TLC, so that one pass covers   *)
 (* all traces of a run.  This pass does not depend on the behavioural part of *)
 (* the specification.                                                         *)
-EXTENDS RaftProps, Json, IOUtils
+EXTENDS Raft, Json, IOUtils
 
 TraceFile == IOEnv.VERIF_TRACE
 Trace == ndJsonDeserialize(TraceFile)
@@ -32,6 +32,10 @@ ClOf(e) ==
                 ELSE DefaultCfg(i)],
    conf |-> e.cl.conf]
 
+\* the model constants of Raft.tla are not used when observing traces
+DummyActors == [x \in {} |-> {}]
+DummyBound == [x \in {} |-> 0]
+EmptySet == {}
 EmptyCl == [nodes |-> [i \in Node |-> DefaultCfg(i)], conf |-> EmptyConf]
 
 ObsInit ==
@@ -62,8 +66,10 @@ ActOf(e) ==
    stepped |-> IF e.act = "Advance" /\ i \in Node THEN node[i].soa ELSE ArgSeq(e, "stepped"),
    ents |-> ArgSeq(e, "ents"),
    rd |-> IF HasF(e, "rd") THEN e.rd ELSE NoReady,
-   pid |-> ArgNum(e, "pid"), psz |-> ArgNum(e, "psz"), rid |-> ArgNum(e, "rid"), to |-> ArgNum(e, "to"), k |-> ArgNum(e, "k"),
-   keep |-> ArgBool(e, "keep"), det |-> e.det]
+   pid |-> ArgNum(e, "pid"), psz |-> ArgNum(e, "psz"), rid |-> ArgNum(e, "rid"), to |-> ArgNum(e, "to"),
+   k |-> IF e.act = "Restart" THEN ArgNum(e, "applied") ELSE ArgNum(e, "k"),
+   keep |-> ArgBool(e, "keep"), ok |-> ArgBool(e, "ok"),
+   conf |-> IF HasF(e.a, "conf") THEN e.a.conf ELSE EmptyConf, det |-> e.det]
 
 \* sd: the synced image of the storage (what certainly survives a crash); equals the live
 \* storage unless writes that need no fsync are outstanding
@@ -157,6 +163,42 @@ InvSel == IF "VERIF_INVS" \in DOMAIN IOEnv /\ IOEnv.VERIF_INVS # ""
           THEN SeqSet(JsonDeserialize(IOEnv.VERIF_INVS)) \cap InvNames ELSE InvNames
 Failing == IF ~C03_WellFormed THEN {"C03_WellFormed"} ELSE {nm \in InvSel : ~Holds(nm)}
 
+\* ---- Conform mode: the specification's own transition, applied to the observed pre-state,
+\* must yield the observed post-state (node record, disk record, return value, Ready contents).
+\* A disagreement is DRIFT (the specification misdescribes the code or the code changed its
+\* behaviour): reported and counted, never a property verdict.
+ConformActs == {"Tick", "Campaign", "Propose", "ProposeConfChange", "ReadIndex", "TransferLeader", "ForgetLeader",
+                "ReportUnreachable", "ReportSnapshot", "Deliver", "Ready", "PersistEntries", "PersistHardState",
+                "PersistSnapshot", "Send", "Apply", "Advance", "AppendThread", "CrashInAppend", "ApplyThread",
+                "Snapshot", "Compact", "Crash", "Restart", "Boot"}
+DoConform == "VERIF_CONFORM" \in DOMAIN IOEnv /\ IOEnv.VERIF_CONFORM = "1"
+DiffFields(x, y) == {f \in DOMAIN x : f \notin DOMAIN y \/ x[f] # y[f]}
+Drift(e) ==
+  IF ~DoConform \/ e.node \notin Node \/ e.act \notin ConformActs \/ e.panic # "" THEN {}
+  ELSE LET i == e.node
+           a == ActOf(e)
+           eff == Effect(i, a, IF e.n.up THEN e.n.rto ELSE 0, e.d)
+           want == Norm(Cfg(i), eff.n, eff.d)
+           nd == IF e.n.up = want.up THEN {<<"n", f>> : f \in DiffFields(want, e.n)} ELSE {<<"n", "up">>}
+           dd == {<<"d", f>> : f \in DiffFields(eff.d, e.d)}
+           rr == IF eff.ret # e.ret THEN {<<"ret", eff.ret>>} ELSE {}
+           rdd == IF e.act = "Ready" /\ HasF(e, "rd") THEN {<<"rd", f>> : f \in DiffFields(eff.rd, e.rd)} ELSE {}
+       IN  nd \cup dd \cup rr \cup rdd
+
+\* development aid: the specification's and the implementation's value of each drifting field
+DriftDetail(e) ==
+  LET i == e.node
+      a == ActOf(e)
+      eff == Effect(i, a, IF e.n.up THEN e.n.rto ELSE 0, e.d)
+      want == Norm(Cfg(i), eff.n, eff.d)
+      Short(v, f) == IF f \in {"msgs", "after", "soa", "pendingReads"}
+                     THEN [k \in DOMAIN v |-> <<v[k].type, v[k].from, v[k].to, "t", v[k].term, "i", v[k].index, "lt", v[k].logTerm,
+                                                "c", v[k].commit, v[k].reject, "h", v[k].hint, Len(v[k].entries), v[k].ctxKind, v[k].ctxVal, v[k].snap.index>>]
+                     ELSE IF f = "uents" THEN [k \in DOMAIN v |-> <<v[k].index, v[k].term, v[k].type, v[k].pid, v[k].sz, v[k].psz>>]
+                     ELSE v
+  IN  [nf \in {f \in DiffFields(want, e.n) : TRUE} |-> [spec |-> Short(want[nf], nf), impl |-> Short(e.n[nf], nf)]]
+ShowDetail == "VERIF_DRIFT_DETAIL" \in DOMAIN IOEnv /\ IOEnv.VERIF_DRIFT_DETAIL = "1"
+
 ObsNext ==
   /\ l < Len(Trace)
   /\ l' = l + 1
@@ -179,6 +221,9 @@ ObsNext ==
                       /\ app' = [app EXCEPT ![i] = AppOf(e, app[i])]
                       /\ hist' = HistNext(hist, ActOf(e), i, node[i], e.n, disk[i], e.d)
                  ELSE /\ UNCHANGED <<node, disk, app, hist>>
+  /\ LET dr == Drift(Trace[l + 1])
+     IN  dr # {} => /\ PrintT(<<"OBS-DRIFT", "line", l + 1, "tr", Trace[l + 1].tr, "act", Trace[l + 1].act, "node", Trace[l + 1].node, "fields", dr>>)
+                    /\ (ShowDetail /\ Trace[l + 1].n.up) => PrintT(<<"DETAIL", DriftDetail(Trace[l + 1])>>)
   /\ LET bad == Failing'
      IN  /\ viol' = viol \cup {<<l + 1, nm>> : nm \in bad}
          /\ \A nm \in bad : PrintT(<<"OBS-VIOLATION", nm, "line", l + 1, "tr", Trace[l + 1].tr, "act", Trace[l + 1].act, "node", Trace[l + 1].node>>)
